@@ -438,6 +438,10 @@ theorem strictParser_canonical : Canonical strictParser := by
 
 /-! ## non-vacuity -/
 
+/-- the hypothesis `Complete` of the value-level converses is satisfiable -/
+example : Complete strictParser := by intro a; rfl
+example : Canonical strictParser := strictParser_canonical
+
 example : (decodeTx strictParser strictParser [0x12, 0x01, 0x07, 0x1a, 0x01, 0x01]).map
     (fun t => (t.base, t.actions, t.auth)) = some (⟨0, zeros 32, zeros 8⟩, [7], 1) := by decide
 example : (decodeTx strictParser strictParser [0x12, 0x02, 0x07, 0xff, 0x1a, 0x01, 0x01]).isNone = true := by decide
